@@ -106,7 +106,7 @@ TRUSTED_BASE = [
     "itself (independent of the model): inactive_reported_active, active_missing, foreign_validator (only when the node filtered), "
     "answer_differs_from_last_fetch, stale_after_trim, served_without_fetch_before_first_call, shared_map_mutated (any of these "
     "after a hostile write), error_changed_cache, trim_left_entries, head_cache_polluted_by_slot_query (a failed GetBySlot changed "
-    "the cache), slot_refresh_not_stored, slot_query_protocol, refreshed_by_slot_flag_wrong, bn_query_not_the_cluster_pubkeys, "
+    "the cache), slot_refresh_not_stored, slot_query_protocol, head_query_protocol, nil_validator_accepted, refreshed_by_slot_flag_wrong, bn_query_not_the_cluster_pubkeys, "
     "bn_fetches_overlap, wired_cache_not_reached, answer_before_cache_was_wired, duty_for_inactive_validator, "
     "duty_after_validators_error, scheduler_validator_queries, panic; race_blocked_timeout and sched_trigger_waited_timeout rest on "
     "60 s time-outs",
